@@ -908,6 +908,14 @@ PROPS["C03"]["assumptions"] = PROPS["C03"]["assumptions"] + [
     "instantiation units: 12 determinism wrappers (the exec function is a function of its arguments), 2 BTreeMap axioms, derive(PartialEq) of Taint / DataDomain restated, R9 `self != other` in the Data merge_with",
 ]
 
+# ---- satisfiability audit (SAT_AUDIT.md): every property -------------------------------------------------------------
+TWINS["interval_base"] = [t for t in TWINS["interval_base"] if t[0] not in ("Interval::is_top", "Interval::new_top")]
+for _pid in PROPS:
+    PROPS[_pid]["level_note"] = PROPS[_pid]["level_note"] + (
+        " Satisfiability: the preconditions of every contracted function of the units and every hypothesis predicate over type parameters have a machine-checked "
+        "witness (verified exec clients that build concrete arguments and call the real contracted function, witness lemmas, toy and real instances; "
+        "lemmas/<unit>_sat.rs, table in SAT_AUDIT.md); vstd's obeys_key_model / obeys_cmp stay hypotheses.")
+
 
 def twin_for(unit, label):
     for frag, twin in TWINS.get(unit, []):
